@@ -4,8 +4,8 @@ from harness import corr_world as cw
 from harness import worlds
 
 PROP = "C01"
-LEAN_MODULE = "Ztr.Props.C01"
-THEOREMS = []
+LEAN_MODULE = "Ztr.Props.C10"
+THEOREMS = ['Ztr.Layers.C10_bases_first', 'Ztr.Layers.C10_once']
 RULE = ("random layer DAGs of 1-6 layers (class/instance layers, single and multiple inheritance, hooks present or "
         "absent), 0-4 tests per layer incl. unit tests, fault tables (setUp raises on attempt k / always, tearDown "
         "raises or raises NotImplementedError), options over --repeat, -x, -j N, --shuffle-seed, --layer; every "
